@@ -110,24 +110,44 @@ def stage_der(ctx):
     strings += [bytes([a, b, c]) for a in (0x01, 0x02, 0x03, 0x06, 0x0c, 0x1f, 0x3f, 0x30) for b in (0, 1, 0x80, 0x81)
                 for c in range(0, 256, 5)]
     strings += [G.nested_tags(d) for d in (1, 2, 10, 60)]
+    # inputs whose content a class method refuses with its own exception type (BIT STRING with unused bits that are
+    # not zero / without data, UTF8String that is not UTF-8), bare and nested: der_decode must say ASN1DecodeError
+    targeted = {}
+    for inner, cls_ in [(b'\x03\x02\x01\x01', 'bad_bitstring'), (b'\x03\x01\x03', 'bad_bitstring'), (b'\x03\x03\x07\xff\x7f', 'bad_bitstring'),
+                        (b'\x0c\x02\xc3\x28', 'bad_utf8'), (b'\x0c\x01\x80', 'bad_utf8'), (b'\x0c\x03\xed\xa0\x80', 'bad_utf8'),
+                        (b'\x0c\x04\xf4\x90\x80\x80', 'bad_utf8'), (b'\x0c\x02\xc0\xaf', 'bad_utf8')]:
+        for wrapped in (inner, b'\x30' + G._len(len(inner)) + inner, b'\xa0' + G._len(len(inner)) + inner,
+                        b'\x31' + G._len(len(inner) + 3) + b'\x02\x01\x05' + inner,
+                        b'\x30' + G._len(len(inner) + 4) + b'\xa1' + G._len(len(inner) + 2) + b'\x30' + G._len(len(inner)) + inner):
+            targeted[wrapped] = cls_
+    strings += list(targeted)
     seen = set()
-    err_classes = {}
     for b in strings:
         if b in seen:
             continue
         seen.add(b)
+        # direct oracle: on arbitrary bytes der_decode returns a value or raises ASN1DecodeError, nothing else
         try:
-            lit, r = G.cres(lambda: m.der_decode(b), G.cv)
-        except G.Unprintable:
-            skipped += 1
-            continue
-        except RecursionError:
-            ctx.failing_input(f'der_decode of {len(b)} bytes raised RecursionError', {'kind': 'der_recursion', 'data': b.hex()})
-            continue
-        except Exception as e:                 # noqa  undocumented exception type: not modelled
-            err_classes[type(e).__name__] = err_classes.get(type(e).__name__, 0) + 1
-            ctx.broke('correspondence:der_decode', f'unmodelled exception {type(e).__name__} for {b.hex()}')
-            continue
+            r = m.der_decode(b)
+            lit = None
+        except m.ASN1DecodeError:
+            lit = '(Err DecodeErr)'
+        except Exception as e:                 # noqa
+            name = type(e).__name__
+            ctx.count('der.decode.undocumented.' + name)
+            ctx.failing_input(f'der_decode({b.hex()}) raised {name} ({e}) instead of ASN1DecodeError',
+                              {'kind': 'der_error_class', 'data': b.hex(), 'exception': name})
+            if name not in G.DER_ERR:
+                continue
+            lit = '(Err %s)' % G.DER_ERR[name]                  # still compared with the model (which says DecodeErr)
+        if lit is None:
+            try:
+                lit = '(Ok %s)' % G.cv(r)
+            except G.Unprintable:
+                skipped += 1
+                continue
+        if b in targeted:
+            ctx.count('der.decode.targeted.' + targeted[b] + ('.DecodeErr' if lit == '(Err DecodeErr)' else '.other'))
         dec_cases.append('(%s, %s)' % (zl(b), lit))
         ctx.count('der.decode.' + ('accepted' if lit.startswith('(Ok') else lit[5:-1]))
         ctx.note_case(('der-bytes', b), nontrivial=len(b) > 2)
@@ -135,6 +155,9 @@ def stage_der(ctx):
             try:
                 plit, _ = G.cres(lambda: m.der_decode_partial(b), lambda t: '(%s, %d)' % (G.cv(t[0]), t[1]))
                 part_cases.append('(%s, %s)' % (zl(b), plit))
+                if plit in ('(Err EncodeErr)', '(Err UnicodeErr)'):
+                    ctx.failing_input(f'der_decode_partial({b.hex()}) raised {plit[5:-1]} instead of ASN1DecodeError',
+                                      {'kind': 'der_error_class', 'data': b.hex(), 'exception': plit[5:-1], 'api': 'der_decode_partial'})
             except (G.Unprintable, RecursionError):
                 pass
     ctx.cov['oracle']['der_skipped_unprintable'] = skipped
@@ -143,8 +166,8 @@ def stage_der(ctx):
     _corr(ctx, 'der_decode', 'chk_der_decode', dec_cases, 'bytes * res value')
     _corr(ctx, 'der_decode_partial', 'chk_der_partial', part_cases, 'bytes * res (value * Z)')
     d = ctx.cov['distribution']
-    for need in ('der.decode.accepted', 'der.decode.DecodeErr', 'der.decode.EncodeErr', 'der.decode.UnicodeErr',
-                 'der.roundtrip_ok', 'der.roundtrip_fails', 'der.encode_refused' if False else 'der.encoder_invalid.refused'):
+    for need in ('der.decode.accepted', 'der.decode.DecodeErr', 'der.decode.targeted.bad_bitstring.DecodeErr',
+                 'der.decode.targeted.bad_utf8.DecodeErr', 'der.roundtrip_ok', 'der.roundtrip_fails', 'der.encode_refused' if False else 'der.encoder_invalid.refused'):
         if not d.get(need):
             ctx.broke('vacuity:' + need, 'no generated case reached this class')
 
@@ -247,7 +270,8 @@ def gen_b64_text(rng):
 
 
 PEM_TYPES = [b'RSA PRIVATE KEY', b'PRIVATE KEY', b'ENCRYPTED PRIVATE KEY', b'OPENSSH PRIVATE KEY', b'EC PRIVATE KEY',
-             b'DSA PRIVATE KEY', b'PUBLIC KEY', b'RSA PUBLIC KEY', b'CERTIFICATE', b' X  PRIVATE KEY', b'PRIVATE KEY ']
+             b'DSA PRIVATE KEY', b'PUBLIC KEY', b'RSA PUBLIC KEY', b'CERTIFICATE', b' X  PRIVATE KEY', b'PRIVATE KEY ',
+             b'( PRIVATE KEY', b'A.B PRIVATE KEY', b'X+ PUBLIC KEY', b'[a PRIVATE KEY', b'.* PRIVATE KEY', b'\\ PRIVATE KEY']
 HDR_LINES = [b'Proc-Type: 4,ENCRYPTED', b'DEK-Info: AES-128-CBC,00112233445566778899AABBCCDDEEFF', b'DEK-Info: DES-CBC,zz',
              b'Comment: "foo bar"', b'Comment: unquoted', b'Comment: "', b'Comment:""', b'Comment: "a\\', b'b"',
              b'Subject: x\\', b'k:v', b':', b' : ', b'x: "y', b'Comment : " sp "', b' Comment: lead', b'comment: lower',
@@ -564,7 +588,7 @@ def stage_container(ctx):
             dict(pad=bytes(range(1, 200))), dict(mac=b'trailing-mac-bytes'), dict(pub=pubd), dict(pub=b'garbage'),
             dict(cipher=b'aes256-ctr'), dict(cipher=b'aes256-ctr', kdf=b'bcrypt', kdfdata=S(b'0123456789abcdef') + b'\0\0\0\x10'),
             dict(cipher=b'nosuch-cipher', kdf=b'bcrypt'), dict(cipher=b'', kdf=b''), dict(kdf=b'bcrypt'), dict(kdfdata=b'xyz'),
-            dict(priv=S(b'ssh-unknown') + priv[4 + len(parse_strings(priv)[0]):]), dict(priv=priv[:-1]), dict(priv=b''),
+            dict(priv=S(b'ssh-unknown') + priv[4 + len(parse_strings(priv)[0]):]), dict(priv=b''),
             dict(comment=b'c', block=16), dict(comment=b'cc', block=1),
         ]
         full = build_container(priv)
@@ -720,6 +744,8 @@ def _group(rp):
     k = rp.get('kind', '?')
     if k in ('der_deep_nesting', 'der_recursion'):
         return 'der_deep_nesting'
+    if k == 'der_error_class':
+        return 'der_error_class ' + str(rp.get('exception'))
     if rp.get('opts', {}).get('pbe_version') == 1 and \
             k in ('private_cross_type_passphrase', 'pyca_read_private', 'openssl_write_private'):
         return 'pkcs12_pbe_passphrase'
@@ -789,8 +815,8 @@ def run(ctx):
         'cipher x hash x PBE version x passphrase x comment. A case is non-trivial when it is nested/structured, '
         'encrypted, carries a comment or is a mutation; distinct = distinct (stage, input) tuples')
     ctx.cov['trusted_base'] += [
-        'binascii (base64), re (footer search: header text is matched literally in the model, the code compiles it as '
-        'a regular expression unescaped), os.urandom',
+        'binascii (base64), re (footer search: the header text is escaped since 25a6765 and matched literally in the model; '
+        'the multi-line/whitespace semantics of the pattern are modelled by find_footer), os.urandom',
         'ciphers, KDFs (PBKDF1/2, PKCS#12 KDF, bcrypt), hashes and the key mathematics of cryptography/OpenSSL are '
         'parameters of the container theorems (Section variables with dec k (enc k x) = x) and are exercised only by '
         'the implementation sweep',
@@ -881,6 +907,18 @@ def replay(rp):
             good = type(e).__name__ == ('ASN1DecodeError' if rp['api'] == 'der_decode' else 'KeyImportError')
             print('raises', type(e).__name__)
             return 0 if good else 1
+        print('decodes')
+        return 0
+    if kind == 'der_error_class':
+        fn = m.der_decode_partial if rp.get('api') == 'der_decode_partial' else m.der_decode
+        try:
+            fn(bytes.fromhex(rp['data']))
+        except m.ASN1DecodeError:
+            print('raises ASN1DecodeError')
+            return 0
+        except Exception as e:                 # noqa
+            print('still raises', type(e).__name__)
+            return 1
         print('decodes')
         return 0
     if kind == 'der_recursion':
